@@ -67,8 +67,12 @@ MapSeq(s, F(_)) == IF s = <<>> THEN <<>> ELSE [i \in 1..Len(s) |-> F(s[i])]
 ---------------------------------------------------------------------------
 (* Definition layer: the closed form                                       *)
 
-RECURSIVE CumT(_, _)
-CumT(E, i) == IF i = 0 THEN 0 ELSE CumT(E, i - 1) + E[i].d          \* T_i in ticks
+\* d_lo + ... + d_hi, summed by halves (recursion depth log n: recorded histories have hundreds of events)
+RECURSIVE SumD(_, _, _)
+SumD(E, lo, hi) == IF lo > hi THEN 0
+                   ELSE IF lo = hi THEN E[lo].d
+                   ELSE LET mid == (lo + hi) \div 2 IN SumD(E, lo, mid) + SumD(E, mid + 1, hi)
+CumT(E, i) == SumD(E, 1, i)                                          \* T_i = d_1 + ... + d_i, in ticks
 
 \* nearest sample of t ticks; the two differ only when t is an exact half-sample tie
 NearLo(t) == (2 * t + Q - 1) \div (2 * Q)      \* ceil(t/Q - 1/2)
@@ -86,7 +90,7 @@ AliveAt(E, S, n) == \E i \in DOMAIN E : n < S[i] + E[i].len
 
 RECURSIVE MaxEnd(_, _, _)
 MaxEnd(E, S, i) == IF i = 0 THEN 0 ELSE Max2(MaxEnd(E, S, i - 1), S[i] + E[i].len)
-EndOf(E, S) == MaxEnd(E, S, Len(E))            \* length of the output without keep
+EndOf(E, S) == MaxEnd(E, S, Len(E))            \* max_i(S_i + len_i): length of the output without keep
 
 LoStarts(E) == [i \in DOMAIN E |-> StartLo(E, i)]
 
